@@ -1,13 +1,12 @@
 import OrbitModel.Proofs.StoreCovers
 /-!
-# Reachable stores keep their log covered by the cached heads; an aborted batch breaks it
+# Reachable stores keep their log covered by the cached heads
 
 `StoreReachable`: stores built from an empty log by `AddOperation` (allowed or denied) and by
-`replicationLoadComplete` of honest batches *all of whose joins succeed*.
-`loadEnd_abort_uncovered`: with a batch whose second log is refused, the first log stays merged
-while the cache keeps naming only the old head: the merged entry is in the log and not covered.
-The next allowed write or fully accepted batch covers everything again (`addOp_ok_covers`,
-`loadEnd_covers` need no coverage beforehand).
+`replicationLoadComplete` of *any* honest batch (rejected logs are skipped).
+`loadEndPinned_abort_uncovered` documents the repaired defect (F6): in the pinned tree, with a batch
+whose second log is refused, the first log stayed merged while the cache kept naming only the old
+head: the merged entry was in the log and not covered. The current code covers it (`loadEnd_covers`).
 -/
 namespace Orbit
 
@@ -16,9 +15,8 @@ inductive StoreReachable (acl : Acl) (U : List Entry) : Store → Prop
   | init (s : Store) (id : Nat) (h : s.log = Log.empty id) : StoreReachable acl U s
   | addOp {s : Store} (mk : Nat → List Nat → Entry) : StoreReachable acl U s →
       WriteOk acl U s.log mk → StoreReachable acl U (s.addOp acl mk).1
-  | loadEndPinned {s : Store} (logs : List (OMap × OMap)) : StoreReachable acl U s →
-      BatchHonest U s.log.id logs → (s.loadEndPinned acl logs).2 = true →
-      StoreReachable acl U (s.loadEndPinned acl logs).1
+  | loadEnd {s : Store} (logs : List (OMap × OMap)) : StoreReachable acl U s →
+      BatchHonest U s.log.id logs → StoreReachable acl U (s.loadEnd acl logs)
 
 /-- **Every reachable store has a good log covered by `_localHeads ++ _remoteHeads`.** -/
 theorem storeReachable_covers {acl : Acl} {U : List Entry} (hU : HashDet U) (hM : ClockMono U)
@@ -29,7 +27,7 @@ theorem storeReachable_covers {acl : Acl} {U : List Entry} (hU : HashDet U) (hM 
     unfold StoreCovers
     rw [h]; exact coveredBy_empty id _
   | addOp mk _ hw ih => exact ⟨addOp_good hU hM ih.1 hw, addOp_covers hM ih.1 hw ih.2⟩
-  | loadEndPinned logs _ hB hok ih => exact ⟨(loadEnd_good hU hM ih.1 hB).1, loadEnd_covers hU hM ih.1 hB hok⟩
+  | loadEnd logs _ hB ih => exact ⟨(loadEnd_good hU hM ih.1 hB).1, loadEnd_covers hU hM ih.1 hB⟩
 
 /-- an allowed write covers the log whatever the cache held before -/
 theorem addOp_ok_covers {acl : Acl} {U : List Entry} (hM : ClockMono U) {s : Store}
@@ -43,7 +41,7 @@ theorem addOp_ok_covers {acl : Acl} {U : List Entry} (hM : ClockMono U) {s : Sto
   exact (append_covers hM acl.canAppend s.log mk hG h2 h4 hcan).mono_heads
     (fun x hx => List.mem_append_left _ hx)
 
-/-! ### An aborted `replicationLoadComplete` leaves a merged entry uncovered -/
+/-! ### The pinned tree: an aborted `replicationLoadComplete` left a merged entry uncovered -/
 
 /-- the first step of a path: stay, or follow a `next` link of a member with that hash -/
 theorem Desc.head_cases {L : Log} {h x : Nat} (d : Desc L h x) :
@@ -82,10 +80,11 @@ theorem batch_honest : BatchHonest U s1.log.id batch := by
 end AbortExample
 
 open AbortExample in
-/-- **`StoreCovers` is not preserved by an aborted batch.** `s1` is reachable (hence covered), the
-batch is honest, `replicationLoadComplete` reports failure, the log now holds `b`, the cache still
-says `_localHeads = [a]`, `_remoteHeads` unset, and `b` is not reachable from `a`. -/
-theorem loadEnd_abort_uncovered :
+/-- **In the pinned tree `StoreCovers` was not preserved by an aborted batch** (F6, repaired). `s1` is
+reachable (hence covered), the batch is honest, the pinned `replicationLoadComplete` reports failure,
+the log now holds `b`, the cache still says `_localHeads = [a]`, `_remoteHeads` unset, and `b` is
+not reachable from `a`. -/
+theorem loadEndPinned_abort_uncovered :
     StoreCovers s1 ∧ (s1.loadEndPinned acl batch).2 = false ∧ s2.log.entries = [a, b] ∧
     s2.cachedHeads = [1] ∧ ¬ StoreCovers s2 := by
   refine ⟨(storeReachable_covers hU hM s1_reachable).2, by decide, by decide, by decide, ?_⟩
@@ -99,5 +98,14 @@ theorem loadEnd_abort_uncovered :
   · exact absurd h12 (by decide)
   · have : ∀ p ∈ s2.log.entries, p.hash = 1 → p.next = [] := by decide
     exact hpn (this p hp hp1)
+
+open AbortExample in
+/-- the current code on the same batch: `[bad]` is skipped, `b` is merged, and `_remoteHeads` is
+rewritten with both heads -/
+theorem loadEnd_skip_covered :
+    (s1.loadEnd acl batch).log.entries = [a, b] ∧ (s1.loadEnd acl batch).cachedHeads = [1, 2, 1] ∧
+    StoreCovers (s1.loadEnd acl batch) :=
+  ⟨by decide, by decide,
+    loadEnd_covers hU hM (storeReachable_covers hU hM s1_reachable).1 batch_honest⟩
 
 end Orbit
